@@ -760,6 +760,9 @@ class Body:
             mapping = {("param", 2): item}
             for ui, uop in enumerate(cl[2]):
                 mapping[("upvar", ui)] = self.expr_local(uop[1], uop[2]) if uop[0] == "addr" else uop
+            if isinstance(cond, tuple) and cond and cond[0] == "factsat":
+                # the Some(..) is built at one site of the closure: what holds there holds of the item found
+                return frozenset(subst(f, mapping) for f in cb.facts_at(csite))
             # `a && b` as a value: a flag assigned in guarded places
             fs = set(cb.facts_at(csite))
             ds = None
@@ -1177,6 +1180,14 @@ def closure_then_some(body, cl):
     if cb is None or cb.arg_count != 2:
         return None
     ds = cb.defs().get(0, [])
+    # the same written out (or desugared): exactly one place builds Some(value), every other result is None
+    somes = [d for d in ds if d[2] == "assign" and d[3]["k"] == "aggregate" and d[3].get("adt") == "Option" and d[3].get("variant") == "Some"]
+    nones = [d for d in ds if d[2] == "assign" and d[3]["k"] == "aggregate" and d[3].get("adt") == "Option" and d[3].get("variant") == "None"]
+    if len(somes) == 1 and len(somes) + len(nones) == len(ds):
+        d = somes[0]
+        site = (d[0], d[1])
+        val = cb.expr_rvalue(d[3], site)
+        return (("factsat", site), dict(val[3]).get("0"), cb, site)
     if len(ds) != 1 or ds[0][2] != "call":
         return None
     t = ds[0][3]
